@@ -162,11 +162,8 @@ def compile_insns(cp, names, formats=tv.FORMATS, repo=None):
     """-> ({name: {fmt: result}}, {subname: def result})"""
     jobs = []
     for nm in names:
-        steps = []
-        for fi, f in enumerate(tv.FORMATS):
-            if f in formats:
-                steps.append({"op": "insn", "inst": fi, "name": nm, "behaviors": cp.beh[nm]})
-        jobs.append({"id": nm, "steps": steps})
+        insts = [fi for fi, f in enumerate(tv.FORMATS) if f in formats]
+        jobs.append({"id": nm, "steps": [{"op": "insn", "insts": insts, "name": nm, "behaviors": cp.beh[nm]}]})
     jobs.append({"id": "__subs__", "steps": [{"op": "subdef", "inst": 0, "name": s} for s in cp.sub_src]})
     res = impl.run_jobs(jobs, repo=repo)
     out = {}
@@ -178,7 +175,7 @@ def compile_insns(cp, names, formats=tv.FORMATS, repo=None):
         i = 0
         for f in tv.FORMATS:
             if f in formats:
-                d[f] = r["res"][i]
+                d[f] = r["res"][0]["multi"][i]
                 i += 1
         out[nm] = d
     subs = {}
